@@ -150,6 +150,27 @@ fn operands(n: usize) -> Vec<(String, Matrix, Vec<f64>)> {
         let (m, d) = dense_of_banded_fill(n, ml, mu, 10.0);
         v.push((format!("banded({},{})", ml, mu), m, d));
     }
+    // operands populated through the public `fill` (every stored slot, also the unused corners of the band
+    // storage, receives the value): in the band the value, outside it zero
+    for (ml, mu) in [(1usize, 1usize), (0, n - 1), (n - 1, 1)] {
+        let mut m = Matrix::banded(n, ml, mu);
+        m.fill(1.5);
+        let mut d = vec![0.0; n * n];
+        for i in 0..n {
+            for j in 0..n {
+                let k = i as isize - j as isize;
+                if k <= ml as isize && -k <= mu as isize {
+                    d[i * n + j] = 1.5;
+                }
+            }
+        }
+        v.push((format!("banded({},{}) filled", ml, mu), m, d));
+    }
+    {
+        let mut m = Matrix::full(n, n);
+        m.fill(-0.75);
+        v.push(("full filled".to_string(), m, vec![-0.75; n * n]));
+    }
     let dg: Vec<f64> = (0..n).map(|i| 3.0 + i as f64).collect();
     let mut dd = vec![0.0; n * n];
     for i in 0..n {
